@@ -573,6 +573,18 @@ def cases(rng, tier, shard, nshards):
             pts, meta = gen.curve(rng, nmax=80)
             fam = meta['family']
         if rng.random() < 0.03:
+            # one sample that dwarfs the rest (a cold-start outlier of 1e15 in front of a fine-grained tail): any rescaling
+            # or translation of the whole curve by that sample quantises the tail
+            pts, fam = exact_curve(rng, n=int(rng.integers(6, 40)))
+            pts = pts.copy()
+            pts[:, 1] = pts[:, 1] / 64.0
+            if rng.random() < 0.5:
+                pts[0, 1] = 1e15
+            else:
+                pts[0, 0] = -1e15
+            yield {'kind': 'chain', 'points': pts, 'family': 'giant-first-sample', 'layout': pick(rng, ['C', 'F', 'view'])}
+            continue
+        if rng.random() < 0.03:
             # integral coordinates of magnitude 1e9..1e10 as int64: orientation products do not fit int64
             yield {'kind': 'chain', 'points': gen.large_int_curve(rng, nmax=40), 'family': 'large-int64', 'layout': 'i64'}
             continue
